@@ -63,6 +63,7 @@ def dump_mir(crate_dir, variant_id, spec, out_path):
         p = subprocess.run(cmd, cwd=crate_dir, env=env, stdout=subprocess.PIPE, stderr=subprocess.PIPE)
         if p.returncode != 0 or not p.stdout:
             raise RuntimeError(f'MIR dump failed for variant {variant_id}:\n' + p.stderr.decode()[-3000:])
+        os.makedirs(os.path.dirname(out_path), exist_ok=True)
         tmp = out_path + '.tmp%d' % os.getpid()
         open(tmp, 'wb').write(p.stdout)
         os.replace(tmp, out_path)
@@ -134,12 +135,17 @@ def get_replay_bin(profile='dev'):
         if p.returncode != 0:
             raise RuntimeError('replay build failed:\n' + p.stderr.decode()[-3000:])
         binp = os.path.join(sd, 't', 'release' if '--release' in cargs else 'debug', 'replay')
+        os.makedirs(d, exist_ok=True)
         tmp = out + '.tmp%d' % os.getpid()
         shutil.copy2(binp, tmp); os.replace(tmp, out)
-    # drop replay binaries of older trees
-    for e in os.listdir(CACHE):
-        if e.startswith('replay-') and e != 'replay-' + h:
-            shutil.rmtree(os.path.join(CACHE, e), ignore_errors=True)
+    # drop replay binaries of trees not used for a while (never a directory another run may be filling right now)
+    try:
+        for e in os.listdir(CACHE):
+            pth = os.path.join(CACHE, e)
+            if e.startswith('replay-') and e != 'replay-' + h and time.time() - os.path.getmtime(pth) > 3 * 3600:
+                shutil.rmtree(pth, ignore_errors=True)
+    except OSError:
+        pass
     return out
 
 
